@@ -1015,8 +1015,8 @@ def _work_list(item, seed, tier):
         v = fn(p)
         if name == "locale":
             nontrivial, syms = True, (name, "locale:" + p["inner"]["case"])
-        elif name == "config_change":
-            nontrivial, syms = True, (name, "config_change:" + p["transport"]) + tuple("cfg:" + x for x in p["history"])
+        elif name in ("config_change", "ble_writethrough"):
+            nontrivial, syms = True, (name, "config_change:" + p["transport"]) + tuple("cfg:" + x.split(":")[0] for x in p["history"])
         elif name == "pairings":
             nontrivial, syms = bool(p["members"]), (name,) + tuple(f"pairings:{m}" for m in p["members"])
         else:
@@ -1143,10 +1143,11 @@ def run(ctx):
 
     # ---- (4) configuration changes announced to a connected pairing: what a restart reads afterwards
     work += _chunks("config_change", _cfg.plan(ctx.tier, seed), 20)
+    work += _chunks("ble_writethrough", _cfg.plan_ble(ctx.tier, seed), 40)
     ctx.bounds["config_change"] = dict(alphabet=_cfg.ALPH, transports=["ip", "coap"], history_length=3 if quick else 5)
 
     # heavy chunks first
-    order = {"config_change": 4, "database": 0, "crash": 1, "cache": 2, "cache_crash": 3, "pairings": 4, "locale": 1}
+    order = {"ble_writethrough": 4, "config_change": 4, "database": 0, "crash": 1, "cache": 2, "cache_crash": 3, "pairings": 4, "locale": 1}
     work.sort(key=lambda w: order[w[0]])
     ctx.pmap(_work, work)
     ctx.exhaustive = True
